@@ -1,14 +1,22 @@
 """C07 — parallel multiway merge: definite initialisation of the split tables, zero-length
 early return, exact input advancement, last-slab end, fork/join, worker writes,
-Stable propagation, fallback condition agreement."""
+Stable propagation, fallback condition agreement.
+
+Verdict policy of this file: a violation is reported only on positive evidence - a configuration of the evaluated
+skeleton, a CFG path, a grid point, a valuation of a decision table.  Where a shape is not recognised the rule raises
+dtable.Undecidable (exit 2); absence is concluded only in a closed world (every operation on the object is classified)."""
+import re
+
 from engine import ir, dtable, match, skel, cfg as cfgm
 from engine.ir import kids, strip_casts, const_int, ref_of
-from rules.parcommon import check_fork_join
+from engine.normalize import lvalue_root
 
 BASE = "tlx::parallel_multiway_merge_base"
 EXACT = "tlx::multiway_merge_exact_splitting"
 FRONT = {"tlx::parallel_multiway_merge": ("false", "false"), "tlx::stable_parallel_multiway_merge": ("true", "false"),
          "tlx::parallel_multiway_merge_sentinels": ("false", "true"), "tlx::stable_parallel_multiway_merge_sentinels": ("true", "true")}
+SPLITTERS = ("multiway_merge_exact_splitting", "multiway_merge_sampling_splitting")
+LOOPS = ("ForStmt", "WhileStmt", "DoStmt")
 
 
 def ancestors(fn, node):
@@ -20,91 +28,283 @@ def ancestors(fn, node):
     return out
 
 
-def check_exact(ck, fn):
+def undecided(fn, node, what):
+    return dtable.Undecidable("%s: %s at line %s: %s" % (fn.loc, what, node.get("l", "?"), dtable.describe(node)[:70]))
+
+
+def readable(ex, *fns):
+    """the same undecidable with the (very long) full signatures of the evaluated functions replaced by file:line"""
+    msg = str(ex)
+    for f in fns:
+        if f is not None:
+            msg = msg.replace(f.full, f.loc)
+    return type(ex)(msg) if type(ex) in (dtable.Undecidable, skel.TooLong) else ex
+
+
+def key_root(k):
+    """the variable an element key ("elem", base, index) of the skeleton lives in"""
+    while isinstance(k, tuple) and len(k) == 3 and k[0] == "elem":
+        k = k[1]
+    return k
+
+
+def assign_op(op):
+    return op == "=" or (op.endswith("=") and op not in ("==", "!=", "<=", ">="))
+
+
+def is_table(ty):
+    """a container of containers: SimpleVector<std::vector<..>>, std::vector<std::vector<..>>"""
+    ty = (ty or "").replace(" ", "")
+    if ty.startswith("const"):
+        ty = ty[5:]
+    for outer in ("tlx::SimpleVector<", "std::vector<"):
+        if ty.startswith(outer) and ty[len(outer):].startswith(("std::vector<", "tlx::SimpleVector<")):
+            return True
+    return False
+
+
+def is_integer(ty):
+    ty = ty or ""
+    return any(t in ty for t in ("size_t", "unsigned", "int", "long", "short")) and not any(t in ty for t in ("*", "iterator", "<", "&&"))
+
+
+_MODS = {}
+
+
+def modifications(fn, did, also=()):
+    """every node of fn (and of the functions in `also`, e.g. a lambda) through which the variable may change: assignments,
+    ++/--, its address being taken, the variable being bound to a reference parameter of a call"""
+    key = (fn, did, tuple(also))
+    if key not in _MODS:
+        _MODS[key] = _modifications(fn, did, also)
+    return _MODS[key]
+
+
+def _modifications(fn, did, also):
+    out = []
+    for f in (fn,) + tuple(also):
+        for y in f.nodes():
+            if y["k"] in ("BinaryOperator", "CompoundAssignOperator", "CXXOperatorCallExpr"):
+                b = match.binop(y)
+                if b and assign_op(b[0]) and ref_of(b[1]) == did:
+                    out.append(y)
+                    continue
+            u = match.unop(y, ("++", "--"))
+            if u and ref_of(u[1]) == did:
+                out.append(y)
+            elif y["k"] == "UnaryOperator" and y.get("op") == "&" and ref_of(kids(y)[0]) == did:
+                out.append(y)
+            elif "callee" in y and y["k"] in ("CallExpr", "CXXMemberCallExpr", "CXXConstructExpr", "CXXTemporaryObjectExpr"):
+                # the extractor elides lvalue-to-rvalue conversions: whether the argument is bound to a reference is told by the
+                # parameter type of a project function; a library function is taken not to have integer out-parameters
+                callee = fn.tu.by_did.get(y["callee"].get("did")) if getattr(fn, "tu", None) is not None else None
+                args = kids(y)[(1 if y.get("member_call") else 0):]
+                for i, a in enumerate(args):
+                    if a is None or a["k"] != "DeclRefExpr" or a["ref"]["id"] != did or not a.get("lv"):
+                        continue
+                    if callee is not None and i < len(callee.params):
+                        ty = (callee.params[i].get("ty") or "").rstrip()
+                        if ty.endswith("&") and not ty.endswith("&&") and not ty.startswith("const "):
+                            out.append(y)
+                    elif callee is None and not is_integer(a.get("ty")):
+                        out.append(y)
+    return out
+
+
+def stable_inits(fn, also=()):
+    """locals that stand for their initialiser: initialised at the declaration and never changed afterwards"""
+    out = {}
+    for v in fn.nodes():
+        if v["k"] == "VarDecl" and v.get("did") is not None and kids(v) and kids(v)[0] is not None and not modifications(fn, v["did"], also):
+            out[v["did"]] = kids(v)[0]
+    return out
+
+
+class WatchSkel(skel.Skel):
+    """a skeleton that does not lose track of the watched containers: a call that cannot be followed and is handed one of
+    them (by reference, by pointer, as a whole or one of its rows) is undecidable instead of being skipped"""
+    watched = frozenset()
+
+    def names_watched(self, d):
+        """the declaration is a watched container or a reference into one"""
+        return key_root(self.alias.get(d, d)) in self.watched
+
+    def touches(self, e):
+        for y in ir.walk(e):
+            if y["k"] != "DeclRefExpr":
+                continue
+            k = self.alias.get(y["ref"]["id"], y["ref"]["id"])
+            if key_root(k) in self.watched:
+                return True
+            v = self.env.get(k)
+            if isinstance(v, tuple) and len(v) == 2 and v[0] == "ptr" and key_root(v[1]) in self.watched:
+                return True
+        return False
+
+    def object_key(self, e, arrow=False):
+        """key of the object a member function is called on (obj.f() / ptr->f())"""
+        if not arrow:
+            return self.lvalue(e)
+        d = ref_of(e)
+        if d is not None:
+            v = self.load(self.alias.get(d, d))
+            return v[1] if isinstance(v, tuple) and len(v) == 2 and v[0] == "ptr" else None
+        e0 = strip_casts(e)
+        if e0 is not None and e0["k"] == "UnaryOperator" and e0.get("op") == "&":
+            return self.lvalue(kids(e0)[0])
+        return None
+
+    def inline(self, e, args):
+        r = super().inline(e, args)
+        if r is NotImplemented:
+            for a in args:
+                if a is not None and self.touches(a):
+                    raise undecided(self.fn, e, "the split table is handed to a call that cannot be followed")
+        return r
+
+
+def check_exact(ck, tu, fn):
     """SPLIT-DEFINITE-INIT: every row of the split table that is read when the chunks are cut was sized and filled by a
     partition before, for every number of threads and for size == total as well as size < total.  Decided by evaluating
-    the function's index skeleton (thread count, tightness, loop indices) for T = 1..4 and both tightness values."""
+    the function's index skeleton (thread count, tightness, loop indices) for T = 1..4 and both tightness values.  The
+    table is followed in a closed world: sizing (resize), filling (the partition writing through row.begin()) and element
+    reads are the classified operations, reference / pointer aliases of rows and helpers that can be inlined are followed,
+    every other use of the table is undecidable."""
     tag = "exact_splitting<%s>" % fn.targs[0]
     seqs_b, seqs_e = fn.params[0]["did"], fn.params[1]["did"]
     sizep, totalp, nthreads = fn.params[2]["did"], fn.params[3]["did"], fn.params[6]["did"]
-    def is_table(ty):
-        """a container of containers: SimpleVector<std::vector<..>>, std::vector<std::vector<..>>"""
-        ty = (ty or "").replace(" ", "")
-        for outer in ("tlx::SimpleVector<", "std::vector<"):
-            if ty.startswith(outer) and ty[len(outer):].startswith(("std::vector<", "tlx::SimpleVector<")):
-                return True
-        return False
-    tables = {v["did"] for v in fn.nodes() if v["k"] == "VarDecl" and is_table(v.get("ty"))}
+    tdecls = [v for v in fn.nodes() if v["k"] == "VarDecl" and is_table(v.get("ty"))]
+    tables = {v["did"] for v in tdecls}
     ck.require(len(tables) == 1, "%s: split table (simple_vector of vectors) not found" % fn.loc)
+    ctor = [a for a in kids(kids(tdecls[0])[0]) if a is not None and a["k"] != "DefaultArg"] if kids(tdecls[0]) and kids(tdecls[0])[0] is not None else []
+    if len(ctor) != 1 or not is_integer(strip_casts(ctor[0]).get("ty")):
+        raise undecided(fn, tdecls[0], "the split table is not constructed from a row count alone")
     nreads = nfills = 0
     bad = None
     for T in (1, 2, 3, 4):
         for tight in (True, False):
             sized, filled, reads = set(), set(), []
 
-            def row_of(e):
-                ip = match.index_parts(e)
-                if ip and ref_of(ip[0]) in tables:
-                    return ip[1]
+            def classify(key):
+                """("table",) | ("row", r) | ("elem", r, s) | None"""
+                if key in tables:
+                    return ("table",)
+                if isinstance(key, tuple) and len(key) == 3 and key[0] == "elem":
+                    if key[1] in tables:
+                        return ("row", key[2])
+                    if isinstance(key[1], tuple) and len(key[1]) == 3 and key[1][0] == "elem" and key[1][1] in tables:
+                        return ("elem", key[1][2], key[2])
                 return None
 
             def event(e, sk):
-                if "callee" in e and e.get("member_call") and e["callee"]["name"] == "resize" and kids(e):
-                    r = row_of(kids(e)[0])
-                    if r is not None:
-                        v = sk.ev(r)
-                        if v is None:
-                            raise dtable.Undecidable("%s: row index depends on data at line %s" % (fn.loc, e.get("l")))
-                        sized.add(v)
-                        return None
+                k = e["k"]
+                if k == "LambdaExpr":
+                    lf = tu.by_did.get(e.get("fn"))
+                    if lf is None or any(y["k"] == "DeclRefExpr" and sk.names_watched(y["ref"]["id"]) for y in lf.nodes()) or \
+                            any(sk.names_watched(c.get("id")) for c in e.get("captures", [])):
+                        raise undecided(sk.fn, e, "the split table is used inside a lambda")
+                    return NotImplemented
+                if "callee" in e and e.get("member_call") and kids(e) and e["callee"]["name"] != "at" and sk.touches(kids(e)[0]):
+                    what = classify(sk.object_key(kids(e)[0], e.get("arrow")))
+                    name = e["callee"]["name"]
+                    if what and what[0] == "row":
+                        if name == "resize" and len(kids(e)) >= 2:
+                            n = sk.ev(kids(e)[1])
+                            if isinstance(n, int) and not isinstance(n, bool) and n == 0:
+                                sized.discard(what[1])
+                                filled.discard(what[1])
+                            else:
+                                sized.add(what[1])
+                            return None
+                        if name in ("size", "empty", "capacity", "reserve"):
+                            return None
+                        if name == "clear":
+                            sized.discard(what[1])
+                            filled.discard(what[1])
+                            return None
+                    if what and what[0] == "table" and name == "size":
+                        return sk.env.get(next(iter(tables)))
+                    raise undecided(sk.fn, e, "operation on the split table not understood")
                 if "callee" in e and e["callee"]["name"] == "multisequence_partition":
                     for a_ in kids(e):
-                        for z in ir.walk(a_):
-                            if "callee" in z and z["callee"]["name"] == "begin" and z.get("member_call") and row_of(kids(z)[0]) is not None:
-                                v = sk.ev(row_of(kids(z)[0]))
-                                if v is None:
-                                    raise dtable.Undecidable("%s: row index depends on data at line %s" % (fn.loc, e.get("l")))
-                                if v not in sized:
-                                    reads.append((v, e, "is written by the partition before it was sized"))
-                                filled.add(v)
+                        if a_ is None or not sk.touches(a_):
+                            continue
+                        z = match.strip_conv(a_)
+                        what = None
+                        if z is not None and "callee" in z and z.get("member_call") and z["callee"]["name"] == "begin" and len(kids(z)) == 1:
+                            what = classify(sk.object_key(kids(z)[0], z.get("arrow")))
+                        if not what or what[0] != "row":
+                            raise undecided(sk.fn, a_, "the partition receives the split table in a form that is not understood")
+                        if what[1] not in sized:
+                            reads.append((what[1], e, "is written by the partition before it was sized"))
+                        filled.add(what[1])
                     return None
+                if k in ("BinaryOperator", "CompoundAssignOperator", "CXXOperatorCallExpr"):
+                    b = match.binop(e)
+                    if b and assign_op(b[0]) and sk.touches(b[1]):
+                        what = classify(sk.lvalue(b[1])) if b[0] == "=" else None
+                        rhs = strip_casts(b[2])
+                        cargs = [a for a in kids(rhs) if a is not None and a["k"] != "DefaultArg"] if rhs is not None and \
+                            rhs["k"] in ("CXXConstructExpr", "CXXTemporaryObjectExpr") else []
+                        if what and what[0] == "row" and len(cargs) == 1 and is_integer(strip_casts(cargs[0]).get("ty")) and not sk.touches(b[2]):
+                            n = sk.ev(cargs[0])          # row = std::vector<It>(n): a fresh row of n elements
+                            filled.discard(what[1])
+                            if isinstance(n, int) and not isinstance(n, bool) and n == 0:
+                                sized.discard(what[1])
+                            else:
+                                sized.add(what[1])
+                            return None
+                        raise undecided(sk.fn, e, "store into the split table not understood")
+                u = match.unop(e, ("++", "--"))
+                if u and sk.touches(u[1]):
+                    raise undecided(sk.fn, e, "store into the split table not understood")
                 ip = match.index_parts(e)
-                if ip is not None and row_of(ip[0]) is not None:
-                    v = sk.ev(row_of(ip[0]))
-                    if v is None:
-                        raise dtable.Undecidable("%s: row index depends on data at line %s" % (fn.loc, e.get("l")))
-                    reads.append((v, e, None if v in filled else "is read but was never filled"))
-                    return None
+                if ip is not None and sk.touches(ip[0]):
+                    what = classify(sk.lvalue(e))
+                    if what and what[0] == "elem":
+                        reads.append((what[1], e, None if what[1] in filled else "is read but was never filled"))
+                        return None
+                    raise undecided(sk.fn, e, "use of the split table not understood (a row as a whole, or a row index that depends on data)")
+                if k == "DeclRefExpr" and sk.names_watched(e["ref"]["id"]):
+                    raise undecided(sk.fn, e, "use of the split table not understood")
                 return NotImplemented
 
             def unknown(e, sk):
                 b_ = match.binop(e, ("-",)) if e["k"] in ("BinaryOperator", "CXXOperatorCallExpr") else None
                 if b_ and ref_of(b_[1]) == seqs_e and ref_of(b_[2]) == seqs_b:
                     return 2
+                if "callee" in e and e["callee"]["name"] == "distance" and len(kids(e)) == 2 and \
+                        ref_of(match.strip_conv(kids(e)[0])) == seqs_b and ref_of(match.strip_conv(kids(e)[1])) == seqs_e:
+                    return 2
                 return None
             env = {nthreads: T, totalp: 6, sizep: 6 if tight else 4}
-            sk = skel.Skel(fn, env, unknown, event)
+            sk = WatchSkel(fn, env, unknown, event, tu=tu)
+            sk.watched = frozenset(tables)
             try:
                 sk.run(kids(fn.body))
             except skel.Return:
                 pass
+            except dtable.Undecidable as ex:
+                raise readable(ex, fn)
             nreads += len([r for r in reads if r[2] is None])
             nfills += len(filled)
             for v, e, why in reads:
                 if why and bad is None:
                     bad = (T, tight, v, e, why)
-    if nreads == 0 or nfills == 0:
-        raise ir.AnalysisBroken("%s: no reads / fills of the split table seen" % fn.loc)
     if bad:
         T, tight, v, e, why = bad
         ck.violation("SPLIT-DEFINITE-INIT", fn.qname, tag + ":row", "with %d thread%s and size %s total, row %d of the split table %s"
                      % (T, "" if T == 1 else "s", "==" if tight else "<", v, why), fn.nloc(e))
-    else:
-        ck.ok("SPLIT-DEFINITE-INIT", tag, "every row read while cutting the chunks was sized and filled before, for T = 1..4, size == total and size < total "
-              "(%d reads, %d fills over the 8 configurations)" % (nreads, nfills))
+        return
+    if nreads == 0 or nfills == 0:
+        raise ir.AnalysisBroken("%s: no reads / fills of the split table seen" % fn.loc)
+    ck.ok("SPLIT-DEFINITE-INIT", tag, "every row read while cutting the chunks was sized and filled before, for T = 1..4, size == total and size < total "
+          "(%d reads, %d fills over the 8 configurations)" % (nreads, nfills))
 
 
-IAM = 3      # the slab index used when a per-slab fragment is evaluated
+IAM = 3                  # the slab index used when a per-slab fragment is evaluated
+UNSET = ("unset",)       # value of a variable of the enclosing function that this slab has not set (takes no part in arithmetic)
+TGT = 1000000            # stands for the output iterator `target`
 
 
 def int_vector_stores(fn):
@@ -114,30 +314,56 @@ def int_vector_stores(fn):
         b = match.binop(z, ("=",)) if z["k"] in ("BinaryOperator", "CXXOperatorCallExpr") else None
         if b:
             ip = match.index_parts(b[1])
-            if ip and ir.ref_of(ip[0]) is not None and "vector" in (strip_casts(ip[0]).get("ty") or ""):
+            if ip and ir.ref_of(ip[0]) is not None and "vector" in (strip_casts(ip[0]).get("ty") or "").lower():
                 stores.setdefault(ir.ref_of(ip[0]), []).append(z)
         # an element handed to a helper by address: helper(&vec[j])
         if z["k"] == "UnaryOperator" and z.get("op") == "&":
             ip = match.index_parts(kids(z)[0])
-            if ip and ir.ref_of(ip[0]) is not None and "vector" in (strip_casts(ip[0]).get("ty") or "") and \
+            if ip and ir.ref_of(ip[0]) is not None and "vector" in (strip_casts(ip[0]).get("ty") or "").lower() and \
                     any(t in (strip_casts(ip[0]).get("ty") or "") for t in ("<long", "<int", "<unsigned", "<size_t", "<std::ptrdiff")):
                 stores.setdefault(ir.ref_of(ip[0]), []).append(z)
     return stores
 
 
+def store_index(z):
+    """the index expression of a store found by int_vector_stores"""
+    b = match.binop(z, ("=",)) if z["k"] in ("BinaryOperator", "CXXOperatorCallExpr") else None
+    ip = match.index_parts(b[1]) if b else (match.index_parts(kids(z)[0]) if z["k"] == "UnaryOperator" else None)
+    return ip[1] if ip else None
+
+
 def slab_loops(fn, stores):
-    """the loops of fn whose body fills the per-slab vectors: [(loop, index var did)]"""
+    """the loops of fn whose body fills the per-slab vectors, in program order: [(loop, index var did)].  The index variable
+    is the one declared in a for-loop's init statement or, for the other loop forms, the variable that indexes the store
+    and is stepped inside the loop."""
+    order = {n["id"]: i for i, n in enumerate(fn.nodes())}
     out = []
+
+    def add(z, index):
+        loops = [a for a in ancestors(fn, z) if a["k"] in LOOPS]
+        if not loops or any(l is loops[-1] for l, _ in out):
+            return
+        lp = loops[-1]
+        init = match.loop_parts(lp)[0]
+        vs = [x["did"] for x in ir.walk(init) if x["k"] == "VarDecl"] if init is not None else []
+        if len(vs) != 1:
+            d = ref_of(index) if index is not None else None
+            stepped = d is not None and any(match.unop(y, ("++", "--")) and ref_of(match.unop(y, ("++", "--"))[1]) == d or
+                                            (y["k"] in ("BinaryOperator", "CompoundAssignOperator") and assign_op(y.get("op") or "") and ref_of(kids(y)[0]) == d)
+                                            for y in ir.walk(lp))
+            vs = [d] if stepped else []
+        if len(vs) == 1:
+            out.append((lp, vs[0]))
     for vec, sts in stores.items():
         for z in sts:
-            loops = [a for a in ancestors(fn, z) if a["k"] in ("ForStmt", "WhileStmt")]
-            if not loops:
-                continue
-            lp = loops[-1]
-            init = match.loop_parts(lp)[0]
-            vs = [x["did"] for x in ir.walk(init) if x["k"] == "VarDecl"] if init is not None else []
-            if len(vs) == 1 and not any(l is lp for l, _ in out):
-                out.append((lp, vs[0]))
+            add(z, store_index(z))
+    # a further loop over the slabs that only reads the per-slab vectors (e.g. to find the last slab that merges anything)
+    filled = {vec for vec, sts in stores.items() if any(any(inside_of(z, l) for l, _ in out) for z in sts)}
+    for z in fn.nodes():
+        ip = match.index_parts(z)
+        if ip and ref_of(ip[0]) in filled and ref_of(ip[1]) is not None:
+            add(z, ip[1])
+    out.sort(key=lambda t: order.get(t[0]["id"], 0))
     return out
 
 
@@ -146,55 +372,111 @@ class SlabEval:
     L elements whose first output position is P, for a requested size S.  The differences of chunk cursors are the data:
     chunk.first - sequence.first sums to P, chunk.second - chunk.first sums to L (one sequence)."""
 
-    def __init__(self, fn, lam, sizep, idxvar):
-        self.fn, self.lam, self.sizep, self.idxvar = fn, lam, sizep, idxvar
+    def __init__(self, fn, lam, sizep, idxvar, targetp=None, table=None):
+        self.fn, self.lam, self.sizep, self.idxvar, self.targetp, self.table = fn, lam, sizep, idxvar, targetp, table
         self.stores = int_vector_stores(fn)
         self.loops = slab_loops(fn, self.stores)
+        self.loopvars = {v for _, v in self.loops}
         self.outer = set()
         for lp, _ in self.loops:
             inside = {x["did"] for x in ir.walk(lp) if x["k"] == "VarDecl"}
             for z in ir.walk(lp):
                 b = match.binop(z, ("=",)) if z["k"] == "BinaryOperator" else None
-                if b and ref_of(b[1]) is not None and ref_of(b[1]) not in inside:
+                if b and ref_of(b[1]) is not None and ref_of(b[1]) not in inside and ref_of(b[1]) not in self.loopvars:
                     self.outer.add(ref_of(b[1]))
+        # locals of the enclosing function that stand for their initialiser wherever they are used (num_seqs = seqs_ne.size()):
+        # never changed, and initialised from nothing that the per-slab fragment changes
+        self.inits = {d: e for d, e in stable_inits(fn, (lam,) if lam is not None else ()).items()
+                      if not any(y["k"] == "DeclRefExpr" and y["ref"]["id"] in self.outer | self.loopvars for y in ir.walk(e))}
 
     def point(self, L, S, P):
-        """-> dict(pos, length (0 if no merge is started), called, env)"""
+        """-> dict(pos, length (0 if no merge is started), called, env, call, begin, end)"""
+        try:
+            return self._point(L, S, P)
+        except dtable.Undecidable as ex:
+            raise readable(ex, self.fn, self.lam)
+
+    def _point(self, L, S, P):
         merged = []
+
+        def chunk_elem(key):
+            """the key names an element of a row of the split table: chunks[i][s]"""
+            return isinstance(key, tuple) and len(key) == 3 and key[0] == "elem" and isinstance(key[1], tuple) and len(key[1]) == 3 and \
+                key[1][0] == "elem" and (key[1][1] == self.table if self.table is not None else True)
+
+        def cursor_diff(le, re_, sk):
+            """le - re_ if both are cursors (.first / .second of a pair): L, P, -P, or None (data); NotImplemented otherwise"""
+            l, r = match.field_of(le), match.field_of(re_)
+            if not (l and r and l[1] in ("first", "second") and r[1] in ("first", "second")):
+                return NotImplemented
+            lk, rk = sk.lvalue(l[0]), sk.lvalue(r[0])
+            if l[1] == "second" and r[1] == "first" and lk is not None and lk == rk and chunk_elem(lk):
+                return L             # chunk.second - chunk.first of the same chunk
+            if l[1] == "first" and r[1] == "first" and chunk_elem(lk) and rk is not None and not chunk_elem(rk) and key_root(rk) != key_root(lk):
+                return P             # chunk.first - sequence.first
+            if l[1] == "first" and r[1] == "first" and chunk_elem(rk) and lk is not None and not chunk_elem(lk) and key_root(rk) != key_root(lk):
+                return -P
+            return None              # a difference of cursors that is not one of the two quantities: data
 
         def event(e, sk):
             b = match.binop(e, ("-",)) if e["k"] in ("BinaryOperator", "CXXOperatorCallExpr") else None
             if b:
-                l, r = match.field_of(b[1]), match.field_of(b[2])
-                if l and r and l[1] == "first" and r[1] == "first":
-                    return P
-                if l and r and l[1] == "second" and r[1] == "first":
-                    return L
+                r = cursor_diff(b[1], b[2], sk)
+                if r is not NotImplemented:
+                    return r
+            if "callee" in e and e["callee"]["name"] == "distance" and len(kids(e)) == 2 and not e.get("member_call"):
+                r = cursor_diff(match.strip_conv(kids(e)[1]), match.strip_conv(kids(e)[0]), sk)
+                if r is not NotImplemented:
+                    return r
             if "callee" in e and e["callee"]["name"] == "multiway_merge_base":
                 a = kids(e)
-                tb = match.binop(a[2], ("+",))
-                if tb and ir.ref_name(tb[1]) == "target":
-                    pos = sk.ev(tb[2])
-                elif ir.ref_name(a[2]) == "target":
-                    pos = 0
-                else:
-                    pos = None
-                merged.append((pos, sk.ev(a[3]), e))
+                if len(a) < 4 or any(x is None or x["k"] == "DefaultArg" for x in a[:4]):
+                    raise undecided(sk.fn, e, "per-thread merge call not understood")
+                t = sk.ev(a[2])
+                pos = t - TGT if isinstance(t, int) and not isinstance(t, bool) else None
+                merged.append(dict(pos=pos, length=sk.ev(a[3]), call=e, begin=sk.ev(a[0]), end=sk.ev(a[1])))
+                return None
+            if "callee" in e and e.get("member_call") and e["callee"]["name"] in ("begin", "end") and len(kids(e)) == 1 and not e.get("arrow"):
+                key = sk.lvalue(kids(e)[0])
+                if key is not None:
+                    return (e["callee"]["name"], key)
+            if "callee" in e and e["callee"]["name"] == "clamp" and len(kids(e)) == 3 and not e.get("member_call"):
+                v, lo, hi = [sk.ev(x) for x in kids(e)]
+                if all(isinstance(x, int) and not isinstance(x, bool) for x in (v, lo, hi)) and lo <= hi:
+                    return min(max(v, lo), hi)
+                return None
+            if "callee" in e and e["callee"]["name"] == "next" and len(kids(e)) == 2 and not e.get("member_call"):
+                t, n = sk.ev(kids(e)[0]), sk.ev(kids(e)[1])
+                if isinstance(t, int) and isinstance(n, int):
+                    return t + n
                 return None
             return NotImplemented
 
         def unknown(e, sk):
-            if e["k"] == "DeclRefExpr" and any(t in (e.get("ty") or "") for t in ("size_t", "unsigned long", "int", "long")) \
-                    and "*" not in (e.get("ty") or "") and "iterator" not in (e.get("ty") or ""):
+            if e["k"] == "DeclRefExpr" and e["ref"]["id"] in self.inits and e["ref"]["id"] not in busy:
+                d = e["ref"]["id"]       # a local of the enclosing function that stands for its initialiser (num_seqs = seqs_ne.size())
+                busy.add(d)
+                try:
+                    return sk.ev(self.inits[d])
+                finally:
+                    busy.discard(d)
+            if "callee" in e and e.get("member_call") and e["callee"]["name"] == "size" and len(kids(e)) == 1 and not e.get("arrow") and \
+                    "pair" in (strip_casts(kids(e)[0]).get("ty") or "") and ref_of(kids(e)[0]) is not None and ref_of(kids(e)[0]) != self.table:
                 return 1         # number of sequences: one sequence carries the whole slab
-            if "callee" in e and e.get("member_call") and e["callee"]["name"] == "size" and len(kids(e)) == 1:
-                return 1         # likewise: seqs.size()
             return None
+        busy = set()
+
+        def alg(op, a, b, e):
+            """a value that another slab may have left behind is not known: comparing or computing with it is data"""
+            return None if a == UNSET or b == UNSET else NotImplemented
         env = {self.sizep: S}
+        if self.targetp is not None:
+            env[self.targetp] = TGT
         for d in self.outer:
-            env[d] = -1          # "not set by this slab"
+            env[d] = UNSET       # "not set by this slab"
         for lp, var in self.loops:
             sk = skel.Skel(self.fn, env, unknown, event)
+            sk.alg = alg
             sk.env[var] = IAM
             sk.stmt(match.loop_parts(lp)[3])
             env = sk.env
@@ -202,6 +484,7 @@ class SlabEval:
         ctx = self.lam if self.lam is not None else None
         if ctx is not None:
             sk = skel.Skel(ctx, env, unknown, event)
+            sk.alg = alg
             if self.idxvar is not None:
                 sk.env[self.idxvar] = IAM
             try:
@@ -211,75 +494,389 @@ class SlabEval:
         if len(merged) > 1:
             raise dtable.Undecidable("%s: a worker starts more than one merge" % self.fn.loc)
         if merged:
-            pos, ln, call = merged[0]
-            return dict(pos=pos, length=ln, called=True, env=slab_env, call=call)
-        return dict(pos=None, length=0, called=False, env=slab_env, call=None)
+            m = merged[0]
+            return dict(pos=m["pos"], length=m["length"], called=True, env=slab_env, call=m["call"], begin=m["begin"], end=m["end"])
+        return dict(pos=None, length=0, called=False, env=slab_env, call=None, begin=None, end=None)
 
 
 GRID = [(L, S, P) for L in range(0, 4) for S in range(0, 7) for P in range(0, 9)]
 
 
-def last_active_slab(fn, slab, se):
-    """the slab whose cursors are handed back must be one that merged something: a variable that the per-slab fragment
-    sets to the slab's index exactly when the slab merges at least one element"""
-    d = ref_of(slab)
-    if d is None:
-        return False, "which is a fixed slab (%s)" % dtable.describe(slab)
-    if d not in se.outer:
-        assigned = any(match.binop(z, ("=",)) and ref_of(match.binop(z, ("=",))[1]) == d for z in fn.nodes() if z["k"] == "BinaryOperator")
-        if assigned:
-            raise dtable.Undecidable("%s: %s is set outside the per-slab loop" % (fn.loc, dtable.describe(slab)))
+def call_free(e):
+    """literals, variables, arithmetic and casts only"""
+    return all("callee" not in y and y["k"] not in ("LambdaExpr", "CXXNewExpr") for y in ir.walk(e))
+
+
+def last_active_slab(fn, slab, se, lam):
+    """the slab whose cursors are handed back must be one that merged something: its index expression, evaluated in the
+    state the per-slab fragment leaves behind, is the slab's own index exactly when the slab merges at least one element
+    -> (True, "") | (False, reason) ; undecidable if the expression is not a function of what the fragment sets"""
+    refs = {y["ref"]["id"] for y in ir.walk(slab) if y["k"] == "DeclRefExpr"}
+    also = (lam,) if lam is not None else ()
+    if not refs & se.outer:
+        # nothing in the expression is set per slab: a fixed slab - if the expression is closed (no call could compute the
+        # last active slab) and none of its variables is set somewhere else from the slab quantities
+        if not call_free(slab):
+            raise undecided(fn, slab, "the slab whose cursors are handed back is computed by a call")
+        for d in refs:
+            if d in se.loopvars:
+                raise undecided(fn, slab, "the slab whose cursors are handed back depends on a loop index")
+            decl = [v for v in fn.nodes() if v["k"] == "VarDecl" and v.get("did") == d]
+            if decl and kids(decl[0]) and kids(decl[0])[0] is not None and not call_free(kids(decl[0])[0]):
+                raise undecided(fn, decl[0], "the slab whose cursors are handed back is initialised by a call")
+            if decl and modifications(fn, d, also):
+                raise dtable.Undecidable("%s: %s is set outside the per-slab loop" % (fn.loc, dtable.describe(slab)))
+        if ref_of(slab) is None:
+            return False, "which is a fixed slab (%s)" % dtable.describe(slab)
         return False, "which is never set to the last active slab"
     for L, S, P in GRID:
         r = se.point(L, S, P)
-        got = r["env"].get(d)
-        if got not in (-1, IAM):
+        if r["called"] and not isinstance(r["length"], int):
+            raise dtable.Undecidable("%s: length of the per-thread merge not understood" % fn.loc)
+        d = ref_of(slab)
+        got = r["env"].get(d) if d is not None else skel.Skel(fn, r["env"]).ev(slab)
+        if got is None or isinstance(got, bool) or not (got == UNSET or isinstance(got, int)):
+            raise undecided(fn, slab, "value of the slab index after the per-slab fragment not understood")
+        if got != UNSET and got != IAM:
             return False, "which is set to something other than the slab's index"
-        active = r["called"] and r["length"] is not None and r["length"] > 0
+        active = r["called"] and r["length"] > 0
         if (got == IAM) != active:
             return False, ("which is recorded for a slab that merges nothing (local %d, position %d, size %d)" % (L, P, S)) if got == IAM else \
                 ("which is not recorded for a slab that merges %d elements (local %d, position %d, size %d)" % (r["length"], L, P, S))
     return True, ""
 
 
+def inside_of(n, root):
+    return any(y is n for y in ir.walk(root))
+
+
+def zero_length(ck, fn, g, tag, sizep, splits):
+    """ZERO-LENGTH: with size == 0 no split rank is computed.  Every branch condition of the function is evaluated for
+    size = 0 (everything else is data); the edges that cannot be taken then are removed from the CFG.  A remaining path from
+    the entry to a splitting call is the counterexample.  A condition that involves size and cannot be evaluated is a wall:
+    if the splitter is reachable only through such a condition the rule cannot decide."""
+    if modifications(fn, sizep):
+        raise dtable.Undecidable("%s: the requested size is modified inside the function" % fn.loc)
+    inits = stable_inits(fn)
+    busy = set()
+
+    def unknown(e, sk):
+        if e["k"] == "DeclRefExpr" and e["ref"]["id"] in inits and e["ref"]["id"] not in busy:
+            d = e["ref"]["id"]
+            busy.add(d)
+            try:
+                return sk.ev(inits[d])
+            finally:
+                busy.discard(d)
+        return None
+
+    # what may depend on size: computed from it, or assigned under a branch that tests it (a flag set by `if (size == 0)`)
+    tainted = {sizep}
+
+    def on_size(e):
+        return e is not None and any(y["k"] == "DeclRefExpr" and y["ref"]["id"] in tainted for y in ir.walk(e))
+
+    def under_size_test(y):
+        for a in ancestors(fn, y):
+            c = kids(a)[0] if a["k"] in ("IfStmt", "SwitchStmt", "ConditionalOperator") and kids(a) else \
+                (match.loop_parts(a)[1] if a["k"] in LOOPS else None)
+            if c is not None and on_size(c):
+                return True
+        return False
+    changed = True
+    while changed:
+        changed = False
+        for y in fn.nodes():
+            if y["k"] == "VarDecl" and y.get("did") is not None and kids(y):
+                target, src = y["did"], kids(y)[0]
+            elif y["k"] in ("BinaryOperator", "CompoundAssignOperator", "CXXOperatorCallExpr") and match.binop(y) and assign_op(match.binop(y)[0]):
+                target, src = lvalue_root(match.binop(y)[1]), match.binop(y)[2]
+            else:
+                continue
+            if target is not None and target not in tainted and (on_size(src) or under_size_test(y)):
+                tainted.add(target)
+                changed = True
+    blocked, walls = [], []
+    for bid, b in g.blocks.items():
+        succ = b.get("succ", [])
+        if len(succ) != 2 or None in succ or b.get("cond") is None or b.get("termk") == "SwitchStmt":
+            continue
+        els = [x for x in b.get("el", []) if isinstance(x, int)]
+        leaf = fn.byid(els[-1]) if els else None
+        whole = fn.byid(b["cond"])
+        if leaf is None or (whole is not None and not any(y is leaf for y in ir.walk(whole))):
+            leaf = whole
+        if leaf is None:
+            continue
+        try:
+            v = skel.Skel(fn, {sizep: 0}, unknown).ev(leaf)
+        except (dtable.Undecidable, skel.Diverges, skel.Return):
+            v = None
+        if isinstance(v, (bool, int)):
+            blocked.append((bid, succ[1] if v else succ[0]))
+        elif on_size(leaf):
+            walls += [(bid, succ[0]), (bid, succ[1])]
+    start = (g.entry, -1)
+    for s in splits:
+        goal = g.pos_deep(s)
+        if goal is None:
+            raise undecided(fn, s, "splitting call has no place in the CFG")
+        if g.path_between_avoiding(start, goal, [], blocked_edges=blocked + walls) is not None:
+            ck.violation("ZERO-LENGTH", fn.qname, tag, "a merge of zero elements from non-empty inputs reaches the splitter, whose ranks are then -1", fn.loc)
+            return
+    for s in splits:
+        if g.path_between_avoiding(start, g.pos_deep(s), [], blocked_edges=blocked) is not None:
+            raise undecided(fn, s, "whether size == 0 reaches the splitter depends on a test of size that is not understood; splitter")
+    ck.ok("ZERO-LENGTH", tag, "size == 0 returns before any split rank is computed")
+
+
+def fork_join(ck, tu, fn, g, tag):
+    """FORK-JOIN / INDEX-BY-COPY: slot[i] = std::thread(lambda) and slot[j].join() - the two loops are evaluated for 1..4
+    threads and the sets of started and joined slots compared; the join loop comes after the spawn loop on every path; no
+    variable that the spawn loop steps is captured by reference.  -> (lambda function, index variable)"""
+    spawns, seen = [], set()
+    decls = {v["did"]: v for v in fn.nodes() if v["k"] == "VarDecl" and v.get("did") is not None}
+
+    def lambdas_in(e):
+        """the lambda expressions that e runs: written in place, or named by a closure variable (a closure type with captures
+        cannot be assigned to)"""
+        out = []
+        for y in ir.walk(e):
+            if y["k"] == "LambdaExpr":
+                out.append(y)
+            elif y["k"] == "DeclRefExpr" and y["ref"]["id"] in decls and kids(decls[y["ref"]["id"]]) and \
+                    strip_casts(kids(decls[y["ref"]["id"]])[0]) is not None and strip_casts(kids(decls[y["ref"]["id"]])[0])["k"] == "LambdaExpr":
+                out.append(strip_casts(kids(decls[y["ref"]["id"]])[0]))
+        return out
+    for x in fn.nodes():
+        b = match.binop(x, ("=",))
+        x0 = strip_casts(x)
+        if b and "callee" in x0 and x0["id"] not in seen and lambdas_in(b[2]):
+            p = match.index_parts(b[1])
+            if p and ref_of(p[0]) is not None and "thread" in (strip_casts(b[2]).get("ty") or ""):
+                seen.add(x0["id"])
+                spawns.append((x0, p))
+    joins = [x for x in fn.nodes() if "callee" in x and x["callee"]["name"] == "join" and "thread" in (x["callee"].get("record") or "")]
+    if len(spawns) != 1 or len(joins) != 1:
+        raise dtable.Undecidable("%s: fork/join skeleton not recognised (%d spawns, %d joins)" % (fn.loc, len(spawns), len(joins)))
+    sp, (arr, idx) = spawns[0]
+    jn = joins[0]
+    jip = match.index_parts(kids(jn)[0])
+    lams = lambdas_in(match.binop(sp, ("=",))[2])
+    lam = tu.by_did.get(lams[0].get("fn")) if len(lams) == 1 else None
+    if lam is None or lam.params:
+        raise undecided(fn, sp, "worker of the started thread is not one lambda without parameters")
+    join_all = None              # for (std::thread& t : container) t.join();
+    if not jip and ref_of(kids(jn)[0]) is not None and not jn.get("arrow"):
+        rf = [a for a in ancestors(fn, jn) if a["k"] == "CXXForRangeStmt"]
+        if rf and len(kids(rf[0])) >= 3 and kids(rf[0])[1] is not None and kids(rf[0])[1].get("did") == ref_of(kids(jn)[0]) and \
+                (kids(rf[0])[1].get("ty") or "").rstrip().endswith("&") and ref_of(kids(rf[0])[0]) is not None and \
+                not [a for a in ancestors(fn, jn) if a["k"] in LOOPS + ("IfStmt", "SwitchStmt") and any(y is a for y in ir.walk(rf[0]))]:
+            join_all = rf[0]
+            jip = (kids(rf[0])[0], None)
+    if not jip or ref_of(jip[0]) is None or jn.get("arrow"):
+        raise undecided(fn, jn, "the thread that is joined is not an element of a container")
+    idxvar = ref_of(idx)
+    if idxvar is None:
+        raise undecided(fn, sp, "slot of the started thread is not indexed by a plain variable")
+    tvec = ref_of(arr)
+    bad = []
+    if ref_of(jip[0]) != tvec:
+        for d in (tvec, ref_of(jip[0])):
+            if d not in decls or (decls[d].get("ty") or "").rstrip().endswith(("&", "*")):
+                raise undecided(fn, jn, "the joined container may be another name of the one the threads are started in")
+        bad.append(("range", "the threads that are started are not exactly the threads that are joined (they live in different containers)"))
+
+    def outer_loop(n):
+        ls = [a for a in ancestors(fn, n) if a["k"] in LOOPS]
+        return ls[-1] if ls else None
+    ls, lj = outer_loop(sp), (outer_loop(jn) if join_all is None else None)
+    if join_all is not None and (ls is None or not inside_of(join_all, ls)):
+        lj = join_all
+    if ls is None or lj is None:
+        raise undecided(fn, sp if ls is None else jn, "threads are not started / joined in a loop")
+    cs, cj = match.loop_parts(ls)[1], (match.loop_parts(lj)[1] if join_all is None else kids(join_all)[0])
+    if cs is None or cj is None:
+        raise undecided(fn, ls if cs is None else lj, "loop without a condition")
+    inits = stable_inits(fn)
+    tctor = [a for a in kids(kids(decls[tvec])[0]) if a is not None and a["k"] != "DefaultArg"] if tvec in decls and kids(decls[tvec]) and kids(decls[tvec])[0] is not None else None
+
+    def inside(n, loop):
+        return loop["k"] != "CXXForRangeStmt" and any(y is n for y in ir.walk(loop))
+
+    def container_size(sk, at):
+        """number of slots of the thread container: its constructor argument, if nothing but element access is done to it"""
+        if tctor is None or len(tctor) != 1 or [m for m in fn.nodes() if "callee" in m and m.get("member_call") and kids(m) and
+                                                ref_of(kids(m)[0]) == tvec and m["callee"]["name"] not in ("size", "operator[]", "at", "begin", "end")] \
+                or modifications(fn, tvec):
+            raise undecided(fn, at, "size of the thread container not understood")
+        return sk.ev(tctor[0])
+    steer = {y["ref"]["id"] for part in (idx, jip[1]) + tuple(match.loop_parts(ls)[1:3]) + (tuple(match.loop_parts(lj)[1:3]) if join_all is None else ())
+             if part is not None for y in ir.walk(part) if y["k"] == "DeclRefExpr"}
+
+    def run_sliced(sk, loop):
+        """the loop with only those statements of its body that start / join a thread or change a variable the loop bounds
+        and slot indices are computed from; everything else in the body (the per-slab arithmetic of a fused loop) is left
+        out - unless it could leave the loop, then the slice is not the loop"""
+        init, cond, inc, body = match.loop_parts(loop)
+        stmts = [x for x in (kids(body) if body is not None and body["k"] == "CompoundStmt" else [body]) if x is not None]
+        keep = []
+        for x in stmts:
+            rel = any(y["id"] in (sp["id"], jn["id"]) for y in ir.walk(x)) or \
+                any(inside_of(m, x) for d in steer for m in modifications(fn, d)) or \
+                any(y["k"] == "VarDecl" and y.get("did") in steer for y in ir.walk(x))
+            if not rel and any(y["k"] in ("BreakStmt", "ContinueStmt", "ReturnStmt", "GotoStmt", "CXXThrowExpr") for y in ir.walk(x)):
+                raise undecided(fn, x, "a statement of the spawn / join loop may leave the loop")
+            if rel:
+                keep.append(x)
+        if init is not None:
+            sk.stmt(init)
+        first, rounds = loop["k"] == "DoStmt", 0
+        while True:
+            if not first:
+                c = sk.ev(cond)
+                if c is None:
+                    raise undecided(fn, cond, "bound of the spawn / join loop depends on data")
+                if not c:
+                    break
+            first = False
+            rounds += 1
+            if rounds > 64:
+                raise undecided(fn, loop, "spawn / join loop does not end")
+            try:
+                for x in keep:
+                    sk.stmt(x)
+            except skel._Break:
+                break
+            except skel._Continue:
+                pass
+            if inc is not None:
+                sk.ev(inc)
+    syms = {}
+    if not bad:
+        for T in (1, 2, 3, 4):
+            started, joined = [], []
+
+            def event(e, sk):
+                if e["id"] == sp["id"]:
+                    v = sk.ev(idx)
+                    if not isinstance(v, int):
+                        raise undecided(fn, sp, "slot of the started thread depends on data")
+                    started.append(v)
+                    return None
+                if e["id"] == jn["id"]:
+                    v = sk.ev(jip[1])
+                    if not isinstance(v, int):
+                        raise undecided(fn, jn, "slot of the joined thread depends on data")
+                    joined.append(v)
+                    return None
+                if "callee" in e and e.get("member_call") and e["callee"]["name"] == "size" and len(kids(e)) == 1 and ref_of(kids(e)[0]) == tvec:
+                    return container_size(sk, e)
+                return NotImplemented
+
+            def unknown(e, sk):
+                if e["k"] != "DeclRefExpr":
+                    return None
+                d = e["ref"]["id"]
+                if d in inits:
+                    return sk.ev(inits[d])
+                if is_integer(e.get("ty")) and not any(inside(m, ls) or inside(m, lj) for m in modifications(fn, d)):
+                    syms[d] = e["ref"]["name"]
+                    return T
+                return None
+            sk = skel.Skel(fn, {}, unknown, event, tu=tu)
+            for loop in ([ls] if ls is lj else [ls, lj]):
+                if loop is join_all:
+                    n = container_size(sk, join_all)
+                    if not isinstance(n, int) or isinstance(n, bool):
+                        raise undecided(fn, join_all, "size of the thread container not understood")
+                    joined.extend(range(n))
+                    continue
+                # a counter declared in front of a while loop: its value at the loop head is its initialiser if nothing else sets it
+                for d, v in decls.items():
+                    mods = modifications(fn, d)
+                    if mods and not inside(v, loop) and all(inside(m, loop) for m in mods) and kids(v) and kids(v)[0] is not None:
+                        sk.env[d] = sk.ev(kids(v)[0])
+                try:
+                    run_sliced(sk, loop)
+                except dtable.Undecidable as ex:
+                    raise readable(ex, fn)
+            if len(syms) > 1:
+                raise dtable.Undecidable("%s: the spawn and the join loop are bounded by different variables (%s): whether they are equal is not decided"
+                                         % (fn.loc, ", ".join(sorted(syms.values()))))
+            if sorted(started) != sorted(joined) or len(set(started)) != len(started):
+                bad.append(("range", "the threads that are started are not exactly the threads that are joined (with %s = %d: started %s, joined %s)"
+                            % (next(iter(syms.values()), "the bound"), T, sorted(started), sorted(joined))))
+                break
+        # the bound must mean the same in both loops
+        for d in syms:
+            for m in modifications(fn, d):
+                pm = g.pos_deep(m)
+                if pm is None or g.reachable(g.pos_deep(cs), pm):
+                    raise undecided(fn, m, "the bound of the spawn / join loops changes after the threads were started")
+    if not g.dominates(g.pos_deep(cs), g.pos_deep(cj)):
+        bad.append(("order", "threads are joined before all of them were started"))
+    variant = {d for d in decls if any(inside(m, ls) for m in modifications(fn, d))} | {idxvar}
+    byref = [c for c in lams[0].get("captures", []) if c.get("id") in variant and c.get("byref")]
+    if byref:
+        bad.append(("index-capture", "the loop index is captured by reference: the thread reads it after the loop has advanced"))
+    for sig, msg in bad:
+        ck.violation("FORK-JOIN" if sig != "index-capture" else "INDEX-BY-COPY", fn.qname, "%s:%s" % (tag, sig), msg, fn.nloc(sp))
+    if not bad:
+        ck.ok("FORK-JOIN", tag, "threads[i] started for i in [0, %s) and all joined before the result is used" % next(iter(syms.values()), "n"))
+        ck.ok("INDEX-BY-COPY", tag, "worker lambda captures the loop index by copy")
+    if not any(c.get("id") == idxvar for c in lams[0].get("captures", [])):
+        raise undecided(fn, sp, "the worker does not capture the index of its slot")
+    return lam, idxvar
+
+
 def check_base(ck, tu, fn):
     tag = "parallel_multiway_merge_base<%s>" % fn.targs[0]
-    sizep = fn.params[3]["did"]
+    seqsp, targetp, sizep = fn.params[0]["did"], fn.params[2]["did"], fn.params[3]["did"]
     g = cfgm.CFG(fn)
     # ---- ZERO-LENGTH: early return when nothing is to be merged, before the split ranks are computed
-    splits = [c for c in fn.nodes() if "callee" in c and c["callee"]["name"] in ("multiway_merge_exact_splitting", "multiway_merge_sampling_splitting")]
-    ck.require(len(splits) == 2, "%s: splitting calls not found" % fn.loc)
-    okz = False
-    for x in fn.nodes():
-        if x["k"] == "IfStmt" and kids(x)[1] is not None and any(y["k"] == "ReturnStmt" for y in ir.walk(kids(x)[1])):
-            for y in ir.walk(kids(x)[0]):
-                b = match.binop(y, ("==", "<=", "<"))
-                if b and ref_of(b[1]) == sizep and ((const_int(b[2]) == 0 and b[0] in ("==", "<=")) or (const_int(b[2]) == 1 and b[0] == "<")):
-                    if all(g.dominates(g.pos_deep(kids(x)[0]), g.pos(s)) for s in splits):
-                        okz = True
-    if okz:
-        ck.ok("ZERO-LENGTH", tag, "size == 0 returns before any split rank is computed")
-    else:
-        ck.violation("ZERO-LENGTH", fn.qname, tag, "a merge of zero elements from non-empty inputs reaches the splitter, whose ranks are then -1", fn.loc)
+    splits = [c for c in fn.nodes() if "callee" in c and c["callee"]["name"] in SPLITTERS]
+    ck.require(len(splits) >= 1, "%s: splitting calls not found" % fn.loc)
+    zero_length(ck, fn, g, tag, sizep, splits)
+    # the table of chunks: the container of containers that every splitter fills
+    per_split = [{y["ref"]["id"] for a in kids(c) for y in ir.walk(a) if y["k"] == "DeclRefExpr" and is_table(y.get("ty"))} for c in splits]
+    if any(len(s) != 1 for s in per_split) or len(set.union(*per_split)) != 1:
+        raise dtable.Undecidable("%s: the table of chunks handed to the splitters is not one local container of containers" % fn.loc)
+    table = next(iter(per_split[0]))
     # ---- slab quantities: where each worker writes, how much, and which slab's cursors are handed back
-    lam, idxvar = check_fork_join(ck, tu, fn, tag)
-    se = SlabEval(fn, lam, sizep, idxvar)
+    lam, idxvar = fork_join(ck, tu, fn, g, tag)
+    se = SlabEval(fn, lam, sizep, idxvar, targetp, table)
     if lam is not None:
+        own = {v["did"]: v for v in lam.nodes() if v["k"] == "VarDecl" and v.get("did") is not None}
         writes = []
         for y in lam.nodes():
             b = match.binop(y)
             if b and b[0] in ("=", "+=", "-=") and strip_casts(y)["k"] in ("BinaryOperator", "CompoundAssignOperator"):
                 t = strip_casts(b[1])
-                if not (t["k"] == "DeclRefExpr" and t["ref"]["kind"] == "local"):
-                    writes.append(y)
-        calls = [z for z in lam.nodes() if "callee" in z and z["callee"]["name"] == "multiway_merge_base"]
-        rows = [match.index_parts(kids(z)[0]) for c in calls for z in ir.walk(kids(c)[0]) if "callee" in z and z["callee"]["name"] in ("begin", "end") and match.index_parts(kids(z)[0])]
+                if t["k"] == "DeclRefExpr" and t["ref"]["kind"] == "local":
+                    continue
+                root = lvalue_root(b[1])
+                if root in own and not (own[root].get("ty") or "").rstrip().endswith(("&", "*")) and "*" not in (own[root].get("ty") or ""):
+                    continue             # a store into an object of the worker's own
+                if root is None or root in own:
+                    raise undecided(lam, y, "the object the worker stores into is not identified")
+                writes.append(y)
         # where the slab is written and how much of it: on a grid of (local size L, requested size S, slab position P)
-        badpos = badlen = None
+        badpos = badlen = badrow = None
+        calls = []
         for L, S, P in GRID:
             r = se.point(L, S, P)
-            if r["called"] and (r["pos"] is None or r["length"] is None):
+            if r["called"] and (r["pos"] is None or not isinstance(r["length"], int) or isinstance(r["length"], bool)):
                 raise dtable.Undecidable("%s: destination / length of the per-thread merge not understood" % lam.loc)
+            if r["called"]:
+                if not any(c is r["call"] for c in calls):
+                    calls.append(r["call"])
+                rb, re_ = r["begin"], r["end"]
+                if not (isinstance(rb, tuple) and len(rb) == 2 and rb[0] == "begin" and isinstance(re_, tuple) and len(re_) == 2 and re_[0] == "end"):
+                    raise undecided(lam, r["call"], "the input range of the per-thread merge is not begin() .. end() of a container")
+                row = ("elem", table, IAM)
+                if (rb[1] != row or re_[1] != row) and badrow is None:
+                    badrow = (rb[1], re_[1])
             want = max(0, min(L, S - P))
             if r["called"] and r["length"] != 0 and r["pos"] != P and badpos is None:
                 badpos = (L, S, P, r)
@@ -287,80 +884,243 @@ def check_base(ck, tu, fn):
                 badlen = (L, S, P, r["length"], want, r)
         if writes:
             ck.violation("WORKER-WRITES", fn.qname, tag, "the worker lambda writes shared state directly: %s" % dtable.describe(writes[0])[:60], lam.nloc(writes[0]))
-        elif len(calls) != 1:
-            ck.violation("WORKER-WRITES", fn.qname, tag + ":merge", "expected exactly one per-thread multiway_merge_base call, found %d" % len(calls), lam.loc)
-        elif not rows or ir.ref_name(rows[0][0]) != "chunks":
-            ck.violation("WORKER-WRITES", fn.qname, tag + ":merge", "the worker does not merge a row of chunks[]", lam.loc)
+        elif not calls:
+            ck.violation("WORKER-WRITES", fn.qname, tag + ":merge", "expected exactly one per-thread multiway_merge_base call, found 0 "
+                         "(no slab of the %d evaluated ones starts a merge)" % len(GRID), lam.loc)
+        elif badrow:
+            ck.violation("WORKER-WRITES", fn.qname, tag + ":merge", "the worker does not merge a row of chunks[]: worker i merges from %s to %s instead of its own row i"
+                         % tuple(("row %s" % k[2]) if isinstance(k, tuple) and len(k) == 3 and k[1] == table else "another object" for k in badrow), lam.nloc(calls[0]))
         elif badpos:
             L, S, P, r = badpos
             ck.violation("WORKER-WRITES", fn.qname, tag + ":merge", "the worker does not write to target + (sum over the sequences of chunk begin - sequence begin): "
-                         "a slab at position %d is written to target + %s" % (P, r["pos"]), lam.nloc(calls[0]))
+                         "a slab at position %d is written to target + %s" % (P, r["pos"]), lam.nloc(r["call"]))
         else:
             ck.ok("WORKER-WRITES", tag, "the worker only updates locals and merges its own chunk row into target + (sum of the slab's offsets)")
         if badlen:
             L, S, P, got, want, r = badlen
             ck.violation("SLAB-LENGTH", fn.qname, tag, "a slab with %d elements that starts at output position %d merges %d elements for a requested size of %d "
                          "(it must merge max(0, min(local, size - position)) = %d): with sampling splitting a slab can begin behind `size`, the negative "
-                         "length then writes past the requested range" % (L, P, got, S, want), lam.nloc(calls[0]) if calls else lam.loc)
+                         "length then writes past the requested range" % (L, P, got, S, want), lam.nloc(r["call"]) if r["call"] else (lam.nloc(calls[0]) if calls else lam.loc))
         else:
             ck.ok("SLAB-LENGTH", tag, "merged length = max(0, min(local size, size - position)) on a 4x7x9 grid of (local, size, position), "
                   "evaluated through the per-slab fragment and the worker")
-    # ---- ADVANCE-EXACT
+    # ---- ADVANCE-EXACT: the statement that writes the caller's sequence cursors back
+    inits = {v["did"]: kids(v)[0] for v in fn.nodes() if v["k"] == "VarDecl" and v.get("did") is not None and kids(v) and kids(v)[0] is not None}
+    derived = {seqsp}            # iterators / references into the caller's sequences
+    changed = True
+    while changed:
+        changed = False
+        for d, e in inits.items():
+            if d not in derived and lvalue_root(e) in derived:
+                derived.add(d)
+                changed = True
+
+    def through_alias(e, depth=0):
+        """a reference local stands for the object it was bound to"""
+        e0 = strip_casts(e)
+        if e0 is not None and e0["k"] == "DeclRefExpr" and depth < 4:
+            v = [x for x in fn.nodes() if x["k"] == "VarDecl" and x.get("did") == e0["ref"]["id"]]
+            if v and (v[0].get("ty") or "").rstrip().endswith("&") and e0["ref"]["id"] in inits:
+                return through_alias(inits[e0["ref"]["id"]], depth + 1)
+        return e0
     adv = []
     for x in fn.nodes():
-        b = match.binop(x, ("=",))
-        if b:
-            f = match.field_of(b[1])
-            f2 = match.field_of(b[2])
-            if f and f[1] == "first" and ir.ref_name(f[0]) is None and f2 and match.index_parts(f2[0]):
-                pp = match.index_parts(f2[0])
-                if match.index_parts(pp[0]) and ir.ref_name(match.index_parts(pp[0])[0]) == "chunks":
-                    adv.append((x, f2[1], match.index_parts(pp[0])[1]))
+        b = match.binop(x, ("=",)) if x["k"] in ("BinaryOperator", "CXXOperatorCallExpr") else None
+        f = match.field_of(b[1]) if b else None
+        if not f or f[1] != "first" or lvalue_root(b[1]) not in derived:
+            continue
+        f2 = match.field_of(through_alias(b[2]))
+        pp = match.index_parts(through_alias(f2[0])) if f2 else None
+        row = match.index_parts(through_alias(pp[0])) if pp else None
+        if not row or ref_of(through_alias(row[0])) != table:
+            raise undecided(fn, x, "the value the caller's sequence cursor is advanced to is not a cursor of the chunk table")
+        adv.append((x, f2[1], row[1]))
     ck.require(len(adv) == 1, "%s: input advancement not found" % fn.loc)
     x, member, slab = adv[0]
-    slab_ok, why = last_active_slab(fn, slab, se)
     if member != "first":
         ck.violation("ADVANCE-EXACT", fn.qname, tag, "inputs are advanced to chunks[%s].%s: the end of a slab, not the position up to which it was merged "
                      "(with sampling splitting and size < total the inputs appear fully consumed)" % (dtable.describe(slab), member), fn.nloc(x))
-    elif not slab_ok:
-        ck.violation("ADVANCE-EXACT", fn.qname, tag + ":slab", "inputs are advanced to the cursors of slab %s, %s: with sampling splitting the trailing slabs can start "
-                     "behind `size` and merge nothing, their cursors are then ahead of the merged position" % (dtable.describe(slab), why), fn.nloc(x))
     else:
-        ck.ok("ADVANCE-EXACT", tag, "inputs advanced to the .first cursors of the last slab that merged something (%s)" % dtable.describe(slab))
+        slab_ok, why = last_active_slab(fn, slab, se, lam)
+        if not slab_ok:
+            ck.violation("ADVANCE-EXACT", fn.qname, tag + ":slab", "inputs are advanced to the cursors of slab %s, %s: with sampling splitting the trailing slabs can start "
+                         "behind `size` and merge nothing, their cursors are then ahead of the merged position" % (dtable.describe(slab), why), fn.nloc(x))
+        else:
+            ck.ok("ADVANCE-EXACT", tag, "inputs advanced to the .first cursors of the last slab that merged something (%s)" % dtable.describe(slab))
     if lam is not None:
         # Stable propagation inside the base
         st = fn.targs[0]
         for c in list(fn.nodes()) + list(lam.nodes()):
-            if "callee" in c and c["callee"]["name"] in ("multiway_merge_exact_splitting", "multiway_merge_sampling_splitting", "multiway_merge_base"):
-                if (c["callee"].get("targs") or ["?"])[0] != st:
+            if "callee" in c and c["callee"]["name"] in SPLITTERS + ("multiway_merge_base",):
+                targs = c["callee"].get("targs")
+                if not targs:
+                    raise undecided(fn, c, "template arguments of the call are not known")
+                if targs[0] != st:
                     ck.violation("STABLE-PROPAGATE", fn.qname, tag + ":" + c["callee"]["name"], "%s<%s> is used inside the %s parallel merge"
-                                 % (c["callee"]["name"], c["callee"]["targs"][0], "stable" if st == "true" else "unstable"), fn.nloc(c))
+                                 % (c["callee"]["name"], targs[0], "stable" if st == "true" else "unstable"), fn.nloc(c))
                 else:
                     ck.ok("STABLE-PROPAGATE", "%s -> %s" % (tag, c["callee"]["name"]), "Stable=%s" % st, nontrivial=False)
 
 
+CMP = ("==", "!=", "<", ">", "<=", ">=")
+
+
+def front_decision(fn):
+    """the decision of a front end as leaves of a decision table over canonical atoms (comparisons with the operands
+    printed position-independently: parameters by position, locals by their initialisers; global flags by name)"""
+    names = {p["did"]: "p%d" % i for i, p in enumerate(fn.params)}
+
+    def canon(e, run):
+        mp = {d: v for d, v in run.env.items() if isinstance(v, dict)}
+        with dtable.canonical_names(names):
+            return dtable.describe(dtable._subst(e, mp) if mp else e)
+
+    def atomize(n, run):
+        s = strip_casts(n)
+        if s is None:
+            return None
+        if s["k"] == "DeclRefExpr" and s["ref"].get("kind") not in ("local", "param") and s["ref"]["id"] not in run.env:
+            return ("flag", s["ref"]["name"]), False
+        b = match.binop(s, CMP) if s["k"] in ("BinaryOperator", "CXXOperatorCallExpr", "UnaryOperator") else None
+        if not b:
+            return None
+        op, l, r = b
+        cl, cr = const_int(l), const_int(r)
+        if cl is not None and cr is not None:
+            return None
+        if cl is not None:           # c op x  ->  x op' c
+            op, l, r, cl, cr = {"<": ">", ">": "<", "<=": ">=", ">=": "<=", "==": "==", "!=": "!="}[op], r, l, None, cl
+        if cr is not None:           # integers: x <= c is x < c + 1
+            x = canon(l, run)
+            return {"<": (("lt", x, cr), False), "<=": (("lt", x, cr + 1), False), ">": (("lt", x, cr + 1), True), ">=": (("lt", x, cr), True),
+                    "==": (("eq", x, cr), False), "!=": (("eq", x, cr), True)}[op]
+        x, y = canon(l, run), canon(r, run)
+        if op in ("==", "!="):
+            return ("eq",) + tuple(sorted((x, y))), op == "!="
+        return {"<": (("lt", x, y), False), ">": (("lt", y, x), False), "<=": (("lt", y, x), True), ">=": (("lt", x, y), True)}[op]
+    return dtable.explore(fn.body, atomize, fn)
+
+
+def consistent_atoms(v):
+    """excludes valuations that contradict the order of the integers / the trichotomy of one pair of operands"""
+    items = [(a, t) for a, t in v.items() if a[0] != "flag"]
+    for a, at in items:
+        for b, bt in items:
+            if a is b or not at:
+                continue
+            const_a, const_b = isinstance(a[2], int), isinstance(b[2], int)
+            if const_a and const_b and a[1] == b[1]:         # the same expression compared with constants
+                if a[0] == "lt" and b[0] == "lt" and a[2] < b[2] and not bt:
+                    return False         # x < 2 but not x < 3
+                if a[0] == "eq" and b[0] == "eq" and a[2] != b[2] and bt:
+                    return False         # x == 2 and x == 3
+                if a[0] == "eq" and b[0] == "lt" and bt != (a[2] < b[2]):
+                    return False         # x == 2 decides x < c
+            if not const_a and not const_b and set(a[1:]) == set(b[1:]) and bt:
+                if a[0] == "lt" and b[0] == "lt" and a[1:] != b[1:]:
+                    return False         # x < y and y < x
+                if a[0] == "eq" and b[0] == "lt":
+                    return False         # x == y and x < y
+    return True
+
+
+def atom_subject(a):
+    """what an atom is about: a flag, one expression compared with constants, or an unordered pair of expressions"""
+    if a[0] == "flag":
+        return a
+    if isinstance(a[2], int):
+        return ("const", a[1])
+    return ("pair",) + tuple(sorted(a[1:]))
+
+
 def check_fronts(ck, tu):
-    conds = {}
+    tables, atoms_of = {}, {}
     for q, (st, sen) in FRONT.items():
         fn = tu.one(qname=q)
+        short = q.split("::")[-1]
         pb = [c for c in fn.nodes() if "callee" in c and c["callee"]["name"] == "parallel_multiway_merge_base"]
         sb = [c for c in fn.nodes() if "callee" in c and c["callee"]["name"] == "multiway_merge_base"]
-        okk = len(pb) == 1 and len(sb) == 1 and pb[0]["callee"]["targs"][0] == st and sb[0]["callee"]["targs"][:2] == [st, sen]
-        fw = okk and [ref_of(a) for a in kids(pb[0])] == [p["did"] for p in fn.params] and [ref_of(a) for a in kids(sb[0])] == [p["did"] for p in fn.params[:6]]
-        if okk and fw:
+        if not pb or not sb:
+            raise dtable.Undecidable("%s: %s does not call the parallel and the sequential base directly (%d / %d calls)" % (fn.loc, short, len(pb), len(sb)))
+        inits = stable_inits(fn)
+        pids = [p["did"] for p in fn.params]
+        wrong = None
+        for c, want, npar in [(c, [st], 8) for c in pb] + [(c, [st, sen], 6) for c in sb]:
+            targs = c["callee"].get("targs")
+            if not targs or len(targs) < len(want):
+                raise undecided(fn, c, "template arguments of the call are not known")
+            if targs[:len(want)] != want and wrong is None:
+                wrong = "%s<%s>" % (c["callee"]["name"], ",".join(targs[:len(want)]))
+            args = kids(c)
+            if len(args) != npar:
+                raise undecided(fn, c, "number of arguments")
+            for i, a in enumerate(args):
+                if a is None or a["k"] == "DefaultArg":
+                    wrong = wrong or "%s without argument %d (%s)" % (c["callee"]["name"], i + 1, fn.params[i]["name"])
+                    continue
+                def plain(x):
+                    """through conversions, std::move / std::forward"""
+                    x = match.strip_conv(x)
+                    while x is not None and "callee" in x and x["callee"]["name"] in ("move", "forward") and len(kids(x)) == 1:
+                        x = match.strip_conv(kids(x)[0])
+                    return x
+                d = ref_of(plain(a))
+                for _ in range(4):
+                    if d is not None and d not in pids and d in inits:
+                        d = ref_of(plain(inits[d]))
+                if d not in pids:
+                    raise undecided(fn, a, "argument %d of %s is not one of the front end's parameters" % (i + 1, c["callee"]["name"]))
+                if d != pids[i]:
+                    wrong = wrong or "%s with %s as argument %d" % (c["callee"]["name"], fn.params[pids.index(d)]["name"], i + 1)
+        if wrong is None:
             ck.ok("STABLE-PROPAGATE", q, "parallel base<Stable=%s>, sequential base<%s,%s>, parameters forwarded in order" % (st, st, sen))
         else:
-            got = (pb[0]["callee"]["targs"][0] if pb else "?", sb[0]["callee"]["targs"][:2] if sb else "?")
-            ck.violation("STABLE-PROPAGATE", q, "front:" + q.split("::")[-1], "%s must use parallel base<%s> and sequential base<%s,%s> with its own parameters (found %s)"
-                         % (q.split("::")[-1], st, st, sen, got), fn.loc)
-        ifs = [x for x in fn.nodes() if x["k"] == "IfStmt" and any(y is pb[0] for y in ir.walk(kids(x)[1]))] if pb else []
-        if ifs:
-            conds[q] = dtable.describe(kids(ifs[0])[0])
-    if len(set(conds.values())) == 1 and len(conds) == 4:
-        ck.ok("FALLBACK-SWITCH", "4 front ends", "identical condition for taking the parallel path: %s" % next(iter(conds.values()))[:120])
-    else:
-        odd = [q for q, c in conds.items() if list(conds.values()).count(c) == 1]
-        ck.violation("FALLBACK-SWITCH", (odd or list(FRONT))[0], "condition", "the front ends decide differently when to merge in parallel", "tlx/algorithm/parallel_multiway_merge.hpp")
+            ck.violation("STABLE-PROPAGATE", q, "front:" + short, "%s must use parallel base<%s> and sequential base<%s,%s> with its own parameters (found %s)"
+                         % (short, st, st, sen, wrong), fn.loc)
+        # FALLBACK-SWITCH: which base is reached under which valuation of the tests
+        leaves = front_decision(fn)
+        for lf in leaves:
+            if lf["stop"][0] not in ("return", "end"):
+                raise dtable.Undecidable("%s: %s leaves through %s" % (fn.loc, short, lf["stop"][0]))
+            seen = [ev[1] for ev in lf["events"] if ev[0] in ("expr", "decl", "loop")]
+            if lf["stop"][0] == "return" and lf["stop"][1][0] is not None:
+                seen.append(lf["stop"][1][0])
+            if any(ev[0] == "loop" and any("callee" in y and y["callee"]["name"] in ("parallel_multiway_merge_base", "multiway_merge_base") for y in ir.walk(ev[1]))
+                   for ev in lf["events"]):
+                raise dtable.Undecidable("%s: %s calls a merge inside a loop" % (fn.loc, short))
+            found = {("par" if y["callee"]["name"] == "parallel_multiway_merge_base" else "seq") for n in seen for y in ir.walk(n)
+                     if "callee" in y and y["callee"]["name"] in ("parallel_multiway_merge_base", "multiway_merge_base")}
+            lf["outcome"] = "+".join(sorted(found)) or "none"
+        tables[q] = leaves
+        atoms_of[q] = dtable.atoms_of(leaves)
+    atoms = sorted({a for q in atoms_of for a in atoms_of[q]}, key=repr)
+    full = {}
+    for q, leaves in tables.items():
+        full[q] = {tuple(sorted(v.items(), key=repr)): lf["outcome"] for v, lf in dtable.table(leaves, consistent_atoms, atoms)}
+    groups = {}
+    for q in FRONT:
+        groups.setdefault(tuple(sorted(full[q].items(), key=repr)), []).append(q)
+    if len(groups) == 1:
+        ck.ok("FALLBACK-SWITCH", "4 front ends", "identical condition for taking the parallel path: the same base is reached under each of the %d "
+              "consistent valuations of the %d tests" % (len(next(iter(full.values()))), len(atoms)))
+        return
+    major = max(groups.values(), key=len)
+    odd = [q for q in FRONT if q not in major][-1]
+    ref = major[0]
+    only_odd = {atom_subject(a) for a in atoms_of[odd]} - {atom_subject(a) for a in atoms_of[ref]}
+    only_ref = {atom_subject(a) for a in atoms_of[ref]} - {atom_subject(a) for a in atoms_of[odd]}
+    if only_odd and only_ref:
+        raise dtable.Undecidable("%s and %s test different quantities (%s / %s): whether these are equal is not decided"
+                                 % (odd.split("::")[-1], ref.split("::")[-1], sorted(only_odd, key=repr)[0], sorted(only_ref, key=repr)[0]))
+    v = next(k for k in full[odd] if full[odd][k] != full[ref].get(k))
+    pnames = [p_["name"] for p_ in tu.one(qname=odd).params]
+
+    def named(txt):
+        """positional parameter names p0, p1, .. back to the names of the source"""
+        return re.sub(r"\bp(\d+)\b", lambda m: pnames[int(m.group(1))] if int(m.group(1)) < len(pnames) else m.group(0), str(txt))
+    ck.violation("FALLBACK-SWITCH", odd, "condition", "the front ends decide differently when to merge in parallel: with %s, %s takes the %s path and %s the %s path"
+                 % (" ".join(("" if b else "!") + (a[1] if a[0] == "flag" else "(%s %s %s)" % (named(a[1]), {"lt": "<", "eq": "=="}[a[0]], named(a[2]))) for a, b in v),
+                    odd.split("::")[-1], full[odd][v], ref.split("::")[-1], full[ref].get(v)), "tlx/algorithm/parallel_multiway_merge.hpp")
 
 
 def run(ck):
@@ -376,7 +1136,7 @@ def run(ck):
     for t in types:
         tu = ir.extract("witness/C07_parallel_merge.cpp", defines=["WITNESS_T=" + t], extra_flags=["-include", "string"])
         for fn in tu.some(qname=EXACT):
-            check_exact(ck, fn)
+            check_exact(ck, tu, fn)
         for fn in tu.some(qname=BASE):
             check_base(ck, tu, fn)
         check_fronts(ck, tu)
